@@ -203,6 +203,8 @@ static int ls_init(const char *wasm_path, void *(*resolve)(const char *, const c
     sigaction(SIGSEGV, &sa, NULL); sigaction(SIGBUS, &sa, NULL); sigaction(SIGFPE, &sa, NULL); sigaction(SIGALRM, &sa, NULL); sigaction(SIGILL, &sa, NULL); sigaction(SIGABRT, &sa, NULL);
     ls_in_impl = 1;
     ls_tr_impl.n = 0; ls_cur_inst = &ls_inst;
+    /* environment: the storage handed to <module>Instantiate is not zeroed (a reused, malloc'ed or stack-allocated instance struct) */
+    memset(&ls_inst, 0xA5, sizeof ls_inst);
     if (setjmp(ls_jb) == 0) mInstantiate(&ls_inst, resolve ? resolve : ls_resolve_default);
     else { printf("ERROR implementation trapped during instantiation\n"); return 0; }
     ls_in_impl = 0;
@@ -282,6 +284,7 @@ static void ls_fresh(const wr_env *env) {
     if (!e.host_call) e.host_call = ls_host_ref; if (!e.fuel) e.fuel = 200000; if (!e.page_cap) e.page_cap = LS_PAGE_CAP;
     wr_free_instance(ls_ref); ls_ref = wr_instantiate(ls_mod, &e);
     mFreeInstance(&ls_inst); memset(&ls_inst, 0, sizeof ls_inst);
+    memset(&ls_inst, 0xA5, sizeof ls_inst);
     ls_in_impl = 1; if (setjmp(ls_jb) == 0) mInstantiate(&ls_inst, ls_user_resolve ? ls_user_resolve : ls_resolve_default); ls_in_impl = 0;
 }
 static int ls_main_bfs(int argc, char **argv, const ls_func *funcs, int nfuncs, const ls_op *ops, int nops, int maxdepth, unsigned long long budget) {
@@ -380,7 +383,8 @@ static int ls_main_seq2(int argc, char **argv, const ls_func *funcs, int nfuncs,
                 if (ls_env_reset) ls_env_reset();
                 ls_tr_ref.n = 0; refA = wr_instantiate(ls_mod, &e);
                 memset(&ls_inst, 0, sizeof ls_inst); ls_cur_inst = &ls_inst; ls_tr_impl.n = 0;
-                ls_in_impl = 1; if (setjmp(ls_jb) == 0) mInstantiate(&ls_inst, ls_user_resolve ? ls_user_resolve : ls_resolve_default); ls_in_impl = 0;
+                memset(&ls_inst, 0xA5, sizeof ls_inst);
+    ls_in_impl = 1; if (setjmp(ls_jb) == 0) mInstantiate(&ls_inst, ls_user_resolve ? ls_user_resolve : ls_resolve_default); ls_in_impl = 0;
                 ls_ref = refA; ls_compare_init_traces("instantiate-A");
                 haveB = 0; nseq++;
                 for (j = 0; j < len && ls_mismatches == mm; j++) {
@@ -388,6 +392,7 @@ static int ls_main_seq2(int argc, char **argv, const ls_func *funcs, int nfuncs,
                     if (o->inst == 2) {
                         ls_tr_ref.n = 0; refB = wr_instantiate(ls_mod, &e);
                         memset(&instB, 0, sizeof instB); pB = &instB; ls_cur_inst = &instB; ls_tr_impl.n = 0;
+                        memset(&instB, 0x5A, sizeof instB);
                         ls_in_impl = 1; if (setjmp(ls_jb) == 0) mInstantiate(&instB, ls_user_resolve ? ls_user_resolve : ls_resolve_default); ls_in_impl = 0;
                         ls_ref = refB; ls_compare_init_traces("instantiate-B"); haveB = 1; steps++;
                         continue;
